@@ -106,7 +106,20 @@ def opFraudLab (a : Args) : Except String String := do
     ("mbp", fmtDocLabel (binaryToDoc .pos)), ("mbn", fmtDocLabel (binaryToDoc .neg)),
     ("spec.labels", fmtBool (C19.labelsOK dg df bp bn))])
 
+/-- op `fraudvalid`: the validation clause alone, for inputs that also contain NaN scores.  `g f` = the
+non-NaN scores as given (a NaN is neither below 0 nor above 1), `raised` = the implementation raised
+ValueError.  Outputs the model's verdict on the non-NaN part and `spec.valid`; `outside` = some non-NaN
+score lies outside `[0, 1]`. -/
+def opFraudValid (a : Args) : Except String String := do
+  let g ← getRats a "g"
+  let f ← getRats a "f"
+  let raised ← getBool a "raised"
+  let res := FraudScores.make g f 0 0 .genuine
+  pure (out [("res", match res with | .ok _ => "ok" | .error e => fmtErr e),
+    ("outside", fmtBool (C19.anyOutside g f)),
+    ("spec.valid", fmtBool (C19.validOK g f raised))])
+
 def opsC19 : List (String × (Args → Except String String)) :=
-  [("fraud", opFraud), ("fraudlab", opFraudLab)]
+  [("fraud", opFraud), ("fraudlab", opFraudLab), ("fraudvalid", opFraudValid)]
 
 end SA.Ops
